@@ -173,6 +173,22 @@ def run_sharded(chk, prop, prof, n_total, judge_name, module, shards=None):
     chk.merge(env.run_shards(shard_runner, jobs))
 
 
+def run_corpus(chk, prop, judge):
+    """Seconds-long replay tier: the committed minimal cases of corpus/<ID>/ are judged first, without Hypothesis."""
+    import glob
+    import os
+    for path in sorted(glob.glob(os.path.join(env.VERIF, 'corpus', prop, '*.json'))):
+        with open(path) as f:
+            body = json.load(f)
+        case = body['case']
+        prog = S.Program(unpack_items(case['ir']), case.get('tags', []), True)
+        chk.res.count('corpus_cases')
+        try:
+            judge(prog, chk.res)
+        except env.CaseFailure as cf:
+            chk.res.fail(cf.sig, cf.what, cf.case)
+
+
 def replay_program(path, judge):
     with open(path) as f:
         body = json.load(f)
@@ -183,6 +199,10 @@ def replay_program(path, judge):
     try:
         judge(prog, res)
     except env.CaseFailure as cf:
+        k = env.match_known(env.load_known(), body['property'], cf.sig, cf.case)
+        if k is not None:
+            print('KNOWN-FINDING: property=%s %s [%s]' % (body['property'], k.get('what', ''), k['id']))
+            return env.EXIT_OK
         print('VIOLATION property=%s replay=%s' % (body['property'], path))
         print('  signature: %s' % cf.sig)
         print('  ' + str(cf.what)[:800])
